@@ -3,13 +3,15 @@
 Shapes are read with `ast` from the methods' source (fail closed: anything that is not one of the spellings
 listed here raises Unsupported with the place), constants are folded from the AST of the comparisons:
 
-* uint16 / uint32 / boolean `__init__`:  `if <value CMP k> or <value CMP k>: raise ...` followed by the
-  assignment of `self.value` -> (lower bound, operator, upper bound, operator), what is kept as `.value`;
+* uint16 / uint32 / boolean `__init__`:  `if <value CMP k> or <value CMP k> [or value != int(self)]: raise ...`,
+  optionally `if value != int(self): raise ...`, followed by the assignment of `self.value`
+  -> (lower bound, operator, upper bound, operator), integrality test present, what is kept as `.value`;
   the classes construct their object with int.__new__ (no `__new__` of their own);
 * bytes.__init__: the `isinstance(value, bytes_type)` test;
 * string.__new__: bytes are decoded with errors="surrogateescape";
 * digest.__init__: the kinds it looks at (tuple/list -> the three setters in order, dict -> .get of the three
-  names) and that there is no branch for anything else; the length each setter demands;
+  names) and what follows: nothing (anything else is an empty digest) or `elif value is not None: raise`;
+  the length each setter demands;
 * Record.__setattr__: the guard, the conversion, and that the one store comes after the conversion;
 * typedlist.__init__ / _convert;
 * datetime.__new__: `tzinfo = arg.tzinfo or UTC` and the final `if obj.tzinfo is None: ... replace(tzinfo=UTC)`;
@@ -87,22 +89,49 @@ def _value_cmp(node, var):
     return None
 
 
+def _is_integrality(node, var):
+    """`value != int(self)` (either order)"""
+    if not (isinstance(node, ast.Compare) and len(node.ops) == 1 and isinstance(node.ops[0], ast.NotEq)):
+        return False
+
+    def int_self(n):
+        return (isinstance(n, ast.Call) and _is_name(n.func, "int") and len(n.args) == 1 and not n.keywords
+                and _is_name(n.args[0], "self"))
+    l, r = node.left, node.comparators[0]
+    return (_is_name(l, var) and int_self(r)) or (_is_name(r, var) and int_self(l))
+
+
 def range_check(fn):
-    """the range test of uint16 / uint32 / boolean -> ((lo, 'LoLt'|'LoLe', hi, 'HiGt'|'HiGe'), assigned expression)"""
+    """the tests of uint16 / uint32 / boolean ->
+    ((lo, 'LoLt'|'LoLe', hi, 'HiGt'|'HiGe'), integrality test present, assigned expression, parameter name).
+    Shapes: `if A or B [or value != int(self)]: raise`; optionally `if value != int(self): raise`; `self.value = ...`"""
     node = _fn(fn)
     args = [a.arg for a in node.args.args]
     if len(args) != 2 or node.args.vararg or node.args.kwarg or node.args.kwonlyargs:
         raise Unsupported("%s: signature is not (self, value)" % _where(fn))
     var = args[1]
     body = _body(node)
-    if len(body) != 2:
-        raise Unsupported("%s: body is not `if <range test>: raise` + `self.value = ...`" % _where(fn))
-    test, assign = body
+    if len(body) not in (2, 3):
+        raise Unsupported("%s: body is not `if <range test>: raise` [+ `if value != int(self): raise`] + `self.value = ...`" % _where(fn))
+    test, assign = body[0], body[-1]
     if not (isinstance(test, ast.If) and not test.orelse and _unconditional_raise(test.body)
-            and isinstance(test.test, ast.BoolOp) and isinstance(test.test.op, ast.Or) and len(test.test.values) == 2):
-        raise Unsupported("%s: range test is not `if A or B: raise ...`" % _where(fn, test))
+            and isinstance(test.test, ast.BoolOp) and isinstance(test.test.op, ast.Or) and len(test.test.values) in (2, 3)):
+        raise Unsupported("%s: range test is not `if A or B [or C]: raise ...`" % _where(fn, test))
+    integral = False
+    disjuncts = list(test.test.values)
+    if len(disjuncts) == 3:
+        # the integrality test must come after both comparisons (they guard it against non-numbers)
+        if not _is_integrality(disjuncts[2], var):
+            raise Unsupported("%s: third disjunct is not `value != int(self)`: %s" % (_where(fn, test), ast.unparse(disjuncts[2])))
+        integral = True
+        disjuncts = disjuncts[:2]
+    if len(body) == 3:
+        mid = body[1]
+        if not (isinstance(mid, ast.If) and not mid.orelse and _unconditional_raise(mid.body) and _is_integrality(mid.test, var)):
+            raise Unsupported("%s: second statement is not `if value != int(self): raise ...`" % _where(fn, mid))
+        integral = True
     lo = hi = None
-    for c in test.test.values:
+    for c in disjuncts:
         r = _value_cmp(c, var)
         if r is None:
             raise Unsupported("%s: unrecognised comparison `%s`" % (_where(fn, c), ast.unparse(c)))
@@ -119,7 +148,7 @@ def range_check(fn):
         raise Unsupported("%s: the range test lacks a lower or an upper bound" % _where(fn, test))
     if not (isinstance(assign, ast.Assign) and len(assign.targets) == 1 and _self_attr(assign.targets[0], "value")):
         raise Unsupported("%s: last statement is not `self.value = ...`" % _where(fn, assign))
-    return (lo[0], lo[1], hi[0], hi[1]), assign.value, var
+    return (lo[0], lo[1], hi[0], hi[1]), integral, assign.value, var
 
 
 def _plain_int_class(cls):
@@ -228,10 +257,14 @@ def digest_facts(ft):
         raise Unsupported("%s: dict branch sets %r" % (_where(fn, second), names))
     if not second.orelse:
         else_empty = True
-    elif _unconditional_raise(second.orelse):
-        else_empty = False
+    elif (len(second.orelse) == 1 and isinstance(second.orelse[0], ast.If) and not second.orelse[0].orelse
+          and _unconditional_raise(second.orelse[0].body) and isinstance(second.orelse[0].test, ast.Compare)
+          and len(second.orelse[0].test.ops) == 1 and isinstance(second.orelse[0].test.ops[0], ast.IsNot)
+          and _is_name(second.orelse[0].test.left, var) and isinstance(second.orelse[0].test.comparators[0], ast.Constant)
+          and second.orelse[0].test.comparators[0].value is None):
+        else_empty = False          # elif value is not None: raise ...   (None still gives the empty digest: default())
     else:
-        raise Unsupported("%s: unrecognised else branch" % _where(fn, second))
+        raise Unsupported("%s: unrecognised branch after the dict branch" % _where(fn, second))
     # the setters
     lens = []
     for name in ("md5", "sha1", "sha256"):
@@ -509,10 +542,11 @@ def gen_coerce():
 
     bounds = {}
     keeps = {}
+    integral = {}
     for name in ("uint16", "uint32", "boolean"):
         cls = getattr(ft, name)
         _plain_int_class(cls)
-        b, assigned, var = range_check(cls.__init__)
+        b, integral[name], assigned, var = range_check(cls.__init__)
         bounds[name] = b
         if name == "boolean":
             if not (isinstance(assigned, ast.Call) and _is_name(assigned.func, "bool") and len(assigned.args) == 1
@@ -526,8 +560,8 @@ def gen_coerce():
                 keeps[name] = False
             else:
                 raise Unsupported("%s.__init__ stores `%s`" % (name, ast.unparse(assigned)))
-    if keeps["uint16"] != keeps["uint32"]:
-        raise Unsupported("uint16 and uint32 differ in what they keep as .value")
+    if keeps["uint16"] != keeps["uint32"] or integral["uint16"] != integral["uint32"]:
+        raise Unsupported("uint16 and uint32 differ in their integrality test or in what they keep as .value")
     # the port types are uint16 without changes
     import flow.record.fieldtypes.net.tcp as tcp
     import flow.record.fieldtypes.net.udp as udp
@@ -563,6 +597,7 @@ def gen_coerce():
     out += "(* flow/record/fieldtypes/__init__.py, flow/record/base.py: see tools/vf/factgen/c05.py for what each field is read from *)\n"
     out += "Definition gen_facts : facts :=\n  {| f_uint16 := %s;\n     f_uint32 := %s;\n     f_boolean := %s;\n" % (
         cbound(bounds["uint16"]), cbound(bounds["uint32"]), cbound(bounds["boolean"]))
+    out += "     f_uint_integral := %s;\n     f_bool_integral := %s;\n" % (cbool(integral["uint16"]), cbool(integral["boolean"]))
     out += "     f_uint_keeps_arg := %s;\n     f_bytes_isinstance := %s;\n     f_str_decodes_bytes := %s;\n" % (
         cbool(keeps["uint16"]), cbool(bytes_isinstance), cbool(str_decodes))
     out += "     f_digest_len := (%s, %s, %s);\n     f_digest_else_empty := %s;\n" % (cZ(lens[0]), cZ(lens[1]), cZ(lens[2]), cbool(else_empty))
